@@ -9,6 +9,7 @@ import (
 	"math"
 	"math/big"
 	"net/http"
+	"net/url"
 	"os"
 	"path"
 	"path/filepath"
@@ -38,7 +39,9 @@ const maxContent = 64 << 10
 
 // tree is the directory structure used by the static-file checks:
 //
-//	base/sentinel.txt, base/secret/sentinel.txt, base/root-evil/file.txt   (outside)
+//	top/sentinel.txt, top/up2/sentinel.txt                                 (outside, 3 and 2 levels up)
+//	base = top/up2/up1: base/sentinel.txt, base/secret/sentinel.txt,
+//	base/root-evil/file.txt, base/a.txt                                    (outside, 1 level up / siblings)
 //	base/root/...                                                          (the configured root)
 //
 // It is created once per test function, read-only afterwards (except
@@ -82,14 +85,15 @@ func getTree(tb testing.TB) *fileTree {
 		work = out
 	}
 	os.MkdirAll(work, 0o755)
-	base, err := os.MkdirTemp(work, "c20-tree-")
+	top, err := os.MkdirTemp(work, "c20-tree-")
 	if err != nil {
 		tb.Fatalf("cannot create the static root: %v", err)
 	}
+	base := filepath.Join(top, "up2", "up1")
 	ft := &fileTree{base: base, root: filepath.Join(base, "root"), files: map[string][]byte{}, explicit: explicitMap}
 	must := func(err error) {
 		if err != nil {
-			os.RemoveAll(base)
+			os.RemoveAll(top)
 			tb.Fatalf("cannot build the static root: %v", err)
 		}
 	}
@@ -100,6 +104,9 @@ func getTree(tb testing.TB) *fileTree {
 	write(filepath.Join(base, "sentinel.txt"), sentinelMarker)
 	write(filepath.Join(base, "secret", "sentinel.txt"), sentinelMarker)
 	write(filepath.Join(base, "root-evil", "file.txt"), sentinelMarker)
+	write(filepath.Join(base, "a.txt"), sentinelMarker)
+	write(filepath.Join(top, "up2", "sentinel.txt"), sentinelMarker)
+	write(filepath.Join(top, "sentinel.txt"), sentinelMarker)
 	for i, f := range rootFiles {
 		c := []byte(fmt.Sprintf("file %s below the root\n%s", f, kit.Text(uint64(100+i), 40+17*i)))
 		ft.files[f] = c
@@ -110,7 +117,7 @@ func getTree(tb testing.TB) *fileTree {
 	tb.Cleanup(func() {
 		treeMu.Lock()
 		defer treeMu.Unlock()
-		os.RemoveAll(base)
+		os.RemoveAll(top)
 		tree = nil
 	})
 	return ft
@@ -702,6 +709,7 @@ func TestRangeMatrix(t *testing.T) {
 					headers = append(headers, "bytes="+a+","+b)
 				}
 			}
+			plainOnly := map[string]bool{} // headers run against the two constructor-built modifiers only
 			if n == 10 {
 				// every placement of list white space: ordered pairs and triples of the
 				// three spec kinds, each comma with SP / HTAB / two blanks on either side
@@ -719,7 +727,9 @@ func TestRangeMatrix(t *testing.T) {
 									for _, l2 := range []string{"", " ", "\t"} {
 										for _, r2 := range []string{"", " ", "\t"} {
 											if l1+r1+l2+r2 != "" {
-												headers = append(headers, "bytes="+a+l1+","+r1+b+l2+","+r2+c3)
+												h := "bytes=" + a + l1 + "," + r1 + b + l2 + "," + r2 + c3
+												headers = append(headers, h)
+												plainOnly[h] = true
 											}
 										}
 									}
@@ -733,6 +743,9 @@ func TestRangeMatrix(t *testing.T) {
 				for _, c := range []RangeCase{{Who: "body"}, {Who: "static"}, {Who: "body", Slack: 2}, {Who: "body", ViaJSON: true}, {Who: "static", ViaJSON: true}} {
 					if c.ViaJSON && n != 2 && n != 10 {
 						continue // JSON-built modifiers: two of the five lengths
+					}
+					if plainOnly[h] && (c.ViaJSON || c.Slack > 0) {
+						continue
 					}
 					c.Len, c.Seed, c.Range = n, uint64(n), h
 					if !yield(c) {
@@ -788,6 +801,8 @@ func designated(ft *fileTree, urlPath, rawTarget string, explicit bool) (content
 		shape = "directory"
 	case mapped:
 		shape = "explicit-mapping"
+	case strings.Contains(lower, "%25"):
+		shape = "double-encoded"
 	case strings.Contains(lower, "%2f") || strings.Contains(lower, "%5c") || strings.Contains(lower, "%2e") || strings.Contains(rawTarget, "\\"):
 		shape = "encoded-separator-or-dot"
 	case hasDotSegment(urlPath):
@@ -884,9 +899,27 @@ func runPath(c PathCase) kit.Verdict {
 	return v
 }
 
+// climbsWhenDecodedAgain: the path, unescaped once more (twice, thrice) and
+// joined below a root WITHOUT being made absolute first, would leave the
+// root: the trap for implementations that decode again after cleaning.
+func climbsWhenDecodedAgain(urlPath string) bool {
+	p := urlPath
+	for i := 0; i < 3; i++ {
+		u, err := url.PathUnescape(p)
+		if err != nil || u == p {
+			return false
+		}
+		p = u
+		if c := path.Clean("root/" + p); c == ".." || strings.HasPrefix(c, "../") || !strings.HasPrefix(c+"/", "root/") {
+			return true
+		}
+	}
+	return false
+}
+
 func nonTrivialPath(c PathCase) bool {
 	l := strings.ToLower(c.Target)
-	return strings.Contains(c.Target, "..") || strings.Contains(l, "%2e") || strings.Contains(l, "%2f") || strings.Contains(l, "%5c") || strings.Contains(c.Target, "\\")
+	return strings.Contains(c.Target, "..") || strings.Contains(l, "%252e") || strings.Contains(l, "%252f") || strings.Contains(l, "%2e") || strings.Contains(l, "%2f") || strings.Contains(l, "%5c") || strings.Contains(c.Target, "\\")
 }
 
 func classesPath(c PathCase) []string {
@@ -910,6 +943,9 @@ func classesPath(c PathCase) []string {
 	if strings.HasPrefix(c.Target, "http") {
 		cl = append(cl, "absolute-form")
 	}
+	if climbsWhenDecodedAgain(req.URL.Path) {
+		cl = append(cl, "climbs-out-if-decoded-again")
+	}
 	if c.Explicit {
 		cl = append(cl, "explicit-map")
 	}
@@ -924,7 +960,7 @@ func classesPath(c PathCase) []string {
 
 var hostileSegs = []string{
 	"..", "..", "..", ".", "", "%2e%2e", "%2E%2E", ".%2e", "%2e.", "%2e", "..%2f..", "..%2F", "%2f", "%2f..", "..%5c..", "%5c", "..\\..", "\\",
-	"...", "....", "..x", "%252e%252e", "%c0%ae%c0%ae", "..;", "%00", "a.txt%00", "sub", "deep", "root", "root-evil", "secret", "emptydir", "dir%20with%20space",
+	"...", "....", "..x", "%252e%252e", "%252e%252e", "..%252f..", "%252f", "%252e%252e%252f..", "%25252e%25252e", "%c0%ae%c0%ae", "..;", "%00", "a.txt%00", "sub", "deep", "root", "root-evil", "secret", "emptydir", "dir%20with%20space",
 	"sentinel.txt", "file.txt", "a.txt", "b.txt", "c.bin", "index.html", "case.bin", "nope", "alias", "missing",
 }
 
@@ -960,7 +996,26 @@ func obfuscate(t *rapid.T, p string) string {
 
 func genTarget(t *rapid.T) string {
 	var p string
-	switch k := rapid.IntRange(0, 9).Draw(t, "target_kind"); {
+	switch k := rapid.IntRange(0, 11).Draw(t, "target_kind"); {
+	case k >= 10: // climb out with dot segments / separators that are encoded once, twice or three times
+		var sb strings.Builder
+		for i, n := 0, rapid.IntRange(0, 2).Draw(t, "inside_segs"); i < n; i++ {
+			sb.WriteString("/" + rapid.SampledFrom([]string{"sub", "deep", "nope", "emptydir", "x"}).Draw(t, "inside"))
+		}
+		sep := func() string {
+			return rapid.SampledFrom([]string{"/", "/", "/", "%252f", "%252F", "%2f", "%25252f", "//"}).Draw(t, "climb_sep")
+		}
+		for i, n := 0, rapid.IntRange(1, 5).Draw(t, "climbs"); i < n; i++ {
+			s := sep()
+			if i == 0 && s != "//" {
+				s = "/"
+			}
+			sb.WriteString(s)
+			sb.WriteString(rapid.SampledFrom([]string{"%252e%252e", "%252e%252e", "%252E%252E", ".%252e", "%252e.", "%252e%2e", "%2e%252e", "%25252e%25252e", "..", "%2e%2e"}).Draw(t, "climb"))
+		}
+		sb.WriteString(sep())
+		sb.WriteString(rapid.SampledFrom([]string{"sentinel.txt", "sentinel.txt", "secret" + "/" + "sentinel.txt", "secret%252fsentinel.txt", "root-evil/file.txt", "root-evil%252ffile.txt", "a.txt", "up1/sentinel.txt", "root/a.txt"}).Draw(t, "outside"))
+		p = sb.String()
 	case k < 3: // an existing file, spelled deviously
 		all := append(append([]string{}, rootFiles...), "/alias", "/deep/alias.bin", "/missing", "/emptydir", "/sub", "/a.txt/x", "/sub/b.txt/../../a.txt")
 		p = obfuscate(t, rapid.SampledFrom(all).Draw(t, "file"))
@@ -993,12 +1048,12 @@ func genTarget(t *rapid.T) string {
 	return p
 }
 
-var pathRule = "request lines parsed by http.ReadRequest as the proxy does: paths built from dot segments, doubled slashes, %2e/%2f/%5c, backslashes, NUL, long names and names of files outside the root, devious spellings of existing files, origin- and absolute-form, with and without the explicit path mapping; answered by static.Modifier over a root with sentinel files outside it; judged against path.Clean('/'+path) below the root; non-trivial = the target contains '..' or an encoded dot/separator"
+var pathRule = "request lines parsed by http.ReadRequest as the proxy does: paths built from dot segments, doubled slashes, %2e/%2f/%5c, the same encoded twice and three times (%252e%252e, %252f, %25252e, mixed with single encodings, climbing 1..5 levels towards sentinel files placed 1, 2 and 3 levels above the root), backslashes, NUL, long names and names of files outside the root, devious spellings of existing files, origin- and absolute-form, with and without the explicit path mapping; answered by static.Modifier over a root with sentinel files outside it; judged against path.Clean('/'+path) below the root; non-trivial = the target contains '..' or an encoded dot/separator"
 
 var propPath = &kit.Prop[PathCase]{
 	ID: "C20", Name: "static-path", Rule: "rapid: " + pathRule,
 	Run: runPath, NonTrivial: nonTrivialPath, Classes: classesPath,
-	Gates: map[string]float64{"nontrivial": 0.4, "designates-a-file": 0.12, "aims-outside": 0.1, "absolute-form": 0.1, "explicit-map": 0.2},
+	Gates: map[string]float64{"nontrivial": 0.4, "designates-a-file": 0.12, "aims-outside": 0.1, "climbs-out-if-decoded-again": 0.05, "absolute-form": 0.1, "explicit-map": 0.2},
 	Gen: func(t *rapid.T) PathCase {
 		return PathCase{Target: genTarget(t), Explicit: rapid.IntRange(0, 2).Draw(t, "explicit") == 0, ViaJSON: rapid.IntRange(0, 3).Draw(t, "via_json") == 2}
 	},
@@ -1014,7 +1069,7 @@ func TestStaticPath(t *testing.T) {
 
 var propPathMatrix = &kit.Prop[PathCase]{
 	ID: "C20", Name: "static-path-matrix",
-	Rule: "ALL targets of 1..4 segments over {.., ., empty, %2e%2e, ..%2f.., sub, a.txt, sentinel.txt, secret, root-evil, file.txt, emptydir}, origin-form, plus absolute-form for up to 3 segments, with and without the explicit mapping; " + pathRule,
+	Rule: "ALL targets of 1..4 segments over {.., ., empty, %2e%2e, ..%2f.., sub, a.txt, sentinel.txt, secret, root-evil, file.txt, emptydir}, origin-form, plus absolute-form for up to 3 segments, with and without the explicit mapping; ALL targets of 1..3 members over 15 doubly / triply / singly encoded dot segments, separators and outside names, joined by / and by %252f; " + pathRule,
 	Run:  runPath, NonTrivial: nonTrivialPath, Classes: classesPath,
 }
 
@@ -1029,6 +1084,40 @@ func TestStaticPathMatrix(t *testing.T) {
 			for _, ex := range []bool{false, true} {
 				if !yield(PathCase{Target: fixed, Explicit: ex}) {
 					return
+				}
+			}
+		}
+		// doubly encoded dot segments and separators: every target of 1..3 members
+		// over the alphabet below, joined by "/" and by "%252f"
+		dbl := []string{"%252e%252e", "%252E%252e", ".%252e", "%252e%2e", "..%252f..", "%25252e%25252e", "..", "%2e%2e", "sub", "nope", "sentinel.txt", "secret", "root-evil", "file.txt", "a.txt"}
+		for _, join := range []string{"/", "%252f"} {
+			for L := 1; L <= 3; L++ {
+				idx := make([]int, L)
+				for {
+					var sb strings.Builder
+					for k, a := range idx {
+						if k == 0 {
+							sb.WriteString("/")
+						} else {
+							sb.WriteString(join)
+						}
+						sb.WriteString(dbl[a])
+					}
+					if !yield(PathCase{Target: sb.String(), Explicit: L == 1, ViaJSON: L == 2 && idx[0]%2 == 0}) {
+						return
+					}
+					i := L - 1
+					for i >= 0 {
+						idx[i]++
+						if idx[i] < len(dbl) {
+							break
+						}
+						idx[i] = 0
+						i--
+					}
+					if i < 0 {
+						break
+					}
 				}
 			}
 		}
@@ -1125,7 +1214,7 @@ func TestReplay(t *testing.T) {
 	if os.Getenv("VERIF_REPLAY") != "" {
 		staticAllocatesFromHeader(getTree(t))
 	}
-	kit.Replay(t, propRange, propRangeMatrix, propPath, propPathMatrix, propSequence, propSequenceMatrix)
+	kit.Replay(t, propRange, propRangeMatrix, propPath, propPathMatrix, propSequence, propSequenceMatrix, propHistory, propHistoryEach)
 }
 
 var _ = math.MaxInt64
